@@ -167,7 +167,7 @@ func C01(tier string) {
 	perSys := map[string]any{}
 	for _, sys := range dom.Systems {
 		t0 := time.Now()
-		strs := dom.Versions(sys, quick)
+		strs := append(dom.Versions(sys, quick), dom.C01Extra(sys)...)
 		d, rejected := parseDomain(sys, strs)
 		n := len(d.vers)
 		if n < 20 {
